@@ -9,7 +9,7 @@ oracle: for a fixed binary and input: console output, input consumed and exit st
         every planted state and equal hexsim's; at the first post-reset fetch the registers are zero and the image is intact."""
 import os, sys, glob, struct
 sys.path.insert(0, os.path.dirname(os.path.abspath(__file__)))
-import vlib, tbcommon
+import vlib, tbcommon, gen_rtl
 from vlib import Check, run3
 
 
@@ -64,12 +64,114 @@ def parse_h(out):
     return r
 
 
+def model_outcome(r):
+    """canonical outcome of a run: (how it ended, exit code, console output, input consumed)"""
+    if 'throw' in r or r.get('end') == 'threw':
+        return ('threw', None, r.get('out'), r.get('consumed'))
+    return ('returned', r.get('rc'), r.get('out'), r.get('consumed'))
+
+
+def parse_m(out):
+    r = {}
+    for l in out.decode('latin1').split('\n'):
+        t = l.split()
+        if not t:
+            continue
+        if t[0] == 'END':
+            r['end'] = t[1]
+        elif t[0] == 'RC':
+            r['rc'] = int(t[1]) & 0xff
+        elif t[0] == 'CONSUMED':
+            r['consumed'] = int(t[1])
+        elif t[0] == 'OUT':
+            r['out'] = bytes(int(x) for x in t[2:])
+        elif t[0] == 'STATE':
+            r['state'] = dict(x.split('=') for x in t[1:])
+    return r
+
+
+def model_correspondence(ck, d, tbh, progs):
+    """the same planted power-on state (all four registers, memory fill) through hextb.cpp's own run() (several Verilator
+    seeds: the four hidden trigger bits cannot be planted) and through the extracted model (all hidden-bit combinations):
+    every real outcome must be a model outcome; on a tree for which C13 holds both are a single outcome"""
+    hv, log = vlib.ocaml_build()
+    if hv is None:
+        ck.broken.append('extraction/OCaml build failed: ' + log[-300:])
+        return {}
+    rng = ck.rng
+    hs = [0, 5, 10, 15, 1, 4] if not ck.thorough() else list(range(16))
+    seeds = [1, 2, 3, 4] if not ck.thorough() else list(range(1, 9))
+    stats = {'states': 0, 'real_runs': 0, 'model_runs': 0, 'real_not_in_model': 0, 'probe_mismatch': 0, 'model_ub_skipped': 0, 'outcomes_seen': 0}
+    seen = set()
+    for name, b, inp in progs:
+        ip = os.path.join(d, 'cin')
+        open(ip, 'wb').write(inp)
+        img = open(b, 'rb').read()
+        hw = struct.unpack('<I', img[:4])[0]
+        image = img[4:4 + 4 * hw]
+        svc = [i for i, x in enumerate(image) if x == 0xD3]
+        stores = [i for i, x in enumerate(image) if (x >> 4) in (2, 8)]
+        plants = []
+        for a in svc[:3]:
+            for pc in (a, a - 1):
+                for areg in (0, 1, 2, 3):
+                    plants.append('pc=%d areg=%d breg=%d oreg=0 fill=0x%02x' % (pc, areg, rng.choice([0, 5, 199990]), rng.choice([0xD3, 0x00, 0x80])))
+        for a in stores[:3]:
+            for pc in (a, a - 1):
+                plants.append('pc=%d areg=305419896 breg=%d oreg=0 fill=0x%02x' % (pc, rng.choice([0, 3, 7]), rng.choice([0x20, 0x82, 0x00])))
+        plants.append('pc=0 areg=0 breg=0 oreg=0 fill=0x00')
+        plants.append('pc=2097151 areg=4294967295 breg=4294967295 oreg=4294967280 fill=0xff')
+        rng.shuffle(plants)
+        for desc in plants[:(10 if not ck.thorough() else 200)]:
+            stats['states'] += 1
+            real, realp = set(), set()
+            for seed in seeds:
+                rc, o, e = run3([tbh, b, str(seed), '20000'] + desc.split(), cwd=d, stdin=open(ip, 'rb'), timeout=120)
+                r = parse_h(o)
+                real.add(model_outcome(r))
+                rc, o, e = run3([tbh, b, str(seed), '0', 'probe=1'] + desc.split(), cwd=d, stdin=open(ip, 'rb'), timeout=120)
+                p = parse_h(o).get('probe') or {}
+                realp.add((p.get('pc'), p.get('areg'), p.get('breg'), p.get('oreg'), p.get('image_intact')))
+                stats['real_runs'] += 2
+            model, modelp, ub = set(), set(), False
+            for h in hs:
+                rc, o, e = run3([hv, 'tbrun', b, 'current', '9000', '0'] + desc.split() + ['h=%d' % h], cwd=d, stdin=open(ip, 'rb'), timeout=300)
+                r = parse_m(o)
+                if r.get('end') in ('ub', 'nofuel'):
+                    ub = True
+                model.add(model_outcome(r))
+                rc, o, e = run3([hv, 'tbrun', b, 'current', '9000', '4'] + desc.split() + ['h=%d' % h], cwd=d, stdin=open(ip, 'rb'), timeout=300)
+                st = parse_m(o).get('state') or {}
+                modelp.add((st.get('pc'), st.get('areg'), st.get('breg'), st.get('oreg'), st.get('image_intact')))
+                stats['model_runs'] += 2
+            seen |= real
+            if ub:
+                stats['model_ub_skipped'] += 1          # C++ undefined behaviour / out of fuel in the model: nothing to compare
+                continue
+            if not real <= model:
+                stats['real_not_in_model'] += 1
+                if stats['real_not_in_model'] <= 3:
+                    ck.broken.append('model correspondence: hextb.cpp run() on %s from [%s] gives %s, TbModel.run gives %s over the hidden bits'
+                                     % (name, desc, sorted(real, key=str), sorted(model, key=str)))
+            if not realp <= modelp:
+                stats['probe_mismatch'] += 1
+                if stats['probe_mismatch'] <= 3:
+                    ck.broken.append('model correspondence: state at the first post-reset fetch on %s from [%s]: harness %s, model %s'
+                                     % (name, desc, sorted(realp, key=str), sorted(modelp, key=str)))
+    stats['outcomes_seen'] = len(seen)
+    ck.log('model correspondence: %s' % stats)
+    return stats
+
+
 def main():
     ck = Check('C13')
     ck.cov['trusted_base'] = ['Coq 8.16.1 kernel + VM', 'TbModel.v hand model of hextb.cpp run()/handleSyscall()/load(), tied by this run',
                               'generated RTL semantics (tools/vl2coq.py) and the clocking/first-eval semantics of RtlSem.v', 'Verilator 5.006 (the Verilated model is the implementation under test)',
                               'harness/tb_harness.cpp (plants state through --public-flat-rw, calls hextb.cpp\'s own load/run)']
     ck.assumptions = ['power-on states are enumerated (seeds + planted adversarial states + fills), not proved exhaustively on the Verilated model; the theorem quantifies over all of them on the model']
+    status = gen_rtl.generate_all()          # TbProofs is about the design regenerated from the working tree
+    if status.get('hex'):
+        ck.broken.append('translation of the hex top failed: %s' % status['hex'])
     ok = ck.proofs()
     ck.log('proofs', 'ok' if ok else 'BROKEN')
     hexsim, l0 = vlib.repo_tool('hexsim')
@@ -151,6 +253,9 @@ def main():
                     judge('fill', 'seed=%d %s' % (seed, desc), parse_h(o))
                     rc, o, e = run3([tbh, b, str(seed), '0', 'probe=1'] + desc.split(), cwd=d, stdin=open(ip, 'rb'), timeout=120)
                     judge('probe', 'seed=%d %s probe' % (seed, desc), parse_h(o), probe=True)
+    # ---- tie for the model: extracted TbModel.run (hextb.cpp's loop over the generated RTL) vs hextb.cpp's own run() in the harness
+    corr = model_correspondence(ck, d, tbh, [p for p in progs if p[0] in ('exit7', 'echo', 'sum')])
+    ck.cov['model_correspondence'] = corr
     ck.cov['distinct_nontrivial'] = len(distinct)
     ck.cov['rule'] = 'power-on states = Verilator seeds (real executable) + planted register states at/just before every SVC and store byte of the image + memory fills that make every non-image byte an SVC/store; x toolchain binaries; distinct by (program, state)'
     ck.cov['input_distribution'] = dist
